@@ -27,7 +27,20 @@ structure Method where
   /-- the view fixed on the result and the views its type defines -/
   resultView : Option String
   views : List String
+  /-- the attributes each view of the result type selects (empty for a result that is not a result type) -/
+  viewAttrs : List (String × List String) := []
 deriving Repr
+
+/-- the result attributes a response may map to a header, cookie or tag (expr/http_response.go
+    `resultAttributeType`): with the view fixed on the result, the attributes of that view; otherwise the
+    attributes of the result that EVERY view of its type selects -/
+def respUsable (m : Method) : List String :=
+  match m.resultView with
+  | some v =>
+    match m.viewAttrs.lookup v with
+    | some attrs => attrs
+    | none => if m.viewAttrs.isEmpty then m.result else []
+  | none => m.result.filter fun a => m.viewAttrs.all fun va => va.2.contains a
 
 structure Service where
   name : String
@@ -70,7 +83,7 @@ def danglingMethod (d : Design) (s : Service) (m : Method) : List Dangling :=
   missingFrom "header" o m.headers m.payload ++
   missingFrom "cookie" o m.cookies m.payload ++
   missingFrom "body" o m.body m.payload ++
-  missingFrom "response-attribute" o m.respAttrs m.result ++
+  missingFrom "response-attribute" o m.respAttrs (respUsable m) ++
   missingFrom "error-response" o m.httpErrors (m.errors ++ s.errors ++ d.errors) ++
   missingFrom "scheme" o m.schemes d.schemes ++
   (match m.resultView with
